@@ -2,6 +2,8 @@ package core
 
 import (
 	"fmt"
+	"os"
+	"syscall"
 
 	"github.com/hashicorp/raft"
 
@@ -17,6 +19,8 @@ type FaultPlan struct {
 	// UntilReturn: from the failing step on every I/O step of any kind fails (the device is gone) until the
 	// API call in which it happened returns; after that the device is healthy again.
 	UntilReturn bool `json:"until_return,omitempty"`
+	// Errno: the injected error is this errno instead of a generic one ("EINTR": a call interrupted by a signal)
+	Errno string `json:"errno,omitempty"`
 }
 
 func (f FaultPlan) String() string {
@@ -28,8 +32,15 @@ func (f FaultPlan) String() string {
 	if f.UntilReturn {
 		p = "everything-fails-until-the-call-returns"
 	}
+	if f.Errno != "" {
+		p += "/" + f.Errno
+	}
 	return fmt.Sprintf("fault@%d/%s/%s", f.At, k, p)
 }
+
+// FaultFinalHook, when set, is called at the very end of a fault run (fault cleared, two clean reopens done,
+// WAL closed) with the system and the model of what the last reopen showed.
+var FaultFinalHook func(s *Sys, shown *Model) []Violation
 
 type FaultResult struct {
 	Viol     []Violation
@@ -80,6 +91,10 @@ func RunFault(cfg Config, ops []Op, cont func(m *Model, failed *Op) []Op, fp *Fa
 	d.FaultFileReads = true
 	if fp != nil {
 		d.FaultAt, d.FaultKind, d.FaultPersistent, d.FaultAll = fp.At, fp.Kind, fp.Persistent, fp.UntilReturn
+		if fp.Errno == "EINTR" {
+			simdisk.InjectedErr = syscall.EINTR
+			defer func() { simdisk.InjectedErr = nil }()
+		}
 	}
 	res := vsched.Run(vsched.DefaultChooser{}, 0, false, func() {
 		defer func() {
@@ -149,6 +164,14 @@ func RunFault(cfg Config, ops []Op, cont func(m *Model, failed *Op) []Op, fp *Fa
 			}
 			return o
 		}
+		trace := os.Getenv("VERIF_TRACE") != ""
+		defer func() {
+			if trace {
+				for i, o := range d.Log {
+					fmt.Printf("    log[%d] %s\n", i, o.String())
+				}
+			}
+		}()
 		apply := func(i int, op Op) *Op {
 			if !opened {
 				if !tryOpen("open") {
@@ -156,6 +179,9 @@ func RunFault(cfg Config, ops []Op, cont func(m *Model, failed *Op) []Op, fp *Fa
 				}
 			}
 			err := sys.Apply(op)
+			if trace {
+				d.Mark(simdisk.OpNote, i, fmt.Sprintf("step %d %s returned %v (faultable steps so far %d)", i, op, err, d.FaultOps))
+			}
 			vsched.Quiesce()
 			if fp != nil && fp.UntilReturn && d.FaultHit != nil {
 				d.FaultAt, d.FaultAll = -1, false // the device is back
@@ -279,6 +305,12 @@ func RunFault(cfg Config, ops []Op, cont func(m *Model, failed *Op) []Op, fp *Fa
 			d.FaultPaused = false
 			if d := CompareExact(o2, m1, ""); len(d) > 0 {
 				bad("second clean reopen: WAL shows %s, the first reopen (plus one append) showed %s: %s", o2.Sig(), m1.Sig(), d[0])
+			} else if FaultFinalHook != nil {
+				sys.W.Close()
+				vsched.Quiesce()
+				sys.W = nil
+				out.Viol = append(out.Viol, FaultFinalHook(sys, ModelFromObs(o2, nil))...)
+				return
 			}
 			sys.W.Close()
 			vsched.Quiesce()
